@@ -698,4 +698,51 @@ theorem payload_roundtrip (v : Nat) (p : Payload) (h : okPayload v p = true) :
       dispatch; simp only [hv, ↓reduceIte]; exact deleteAttribute_rt2 v hv u cu r hu h.1.1 h.1.2 h.2
   | unsupported op => exact absurd h Bool.false_ne_true
 
+/-! ### batch items, header, message -/
+
+theorem op_member (v : Nat) (p : Payload) (h : okPayload v p = true) : E.operation.contains p.op = true := by
+  cases p <;> first | exact absurd h Bool.false_ne_true | (show E.operation.contains _ = true; simp only [Payload.op]; decide)
+
+theorem batchIdOf_ascii (s : String) (h : okText s = true) : batchIdOf (asciiBytes s) = .ok s := by
+  simp only [batchIdOf, validUtf8_asciiBytes s h, ↓reduceIte, textOf_asciiBytes s h]
+
+theorem batchItem_enc (v : Nat) (it : Kmip.Item) (h : okItem v it = true) :
+    batchItem (some v) (encItem v it) = .ok (normItem v it) := by
+  obtain ⟨p, bid, cr⟩ := it
+  simp only [okItem, Bool.and_eq_true] at h
+  obtain ⟨hb, hp⟩ := h
+  have hop := op_member v p hp
+  have hpl := payload_roundtrip v p hp
+  by_cases hv : v ≥ 20 <;> cases bid <;> simp only [okOpt] at hb <;>
+    simp only [batchItem, batchItemBody, encItem, normItem, rd_eval, kmip_tags, Nat.reduceBEq, ↓reduceIte, hop, hv, hpl,
+      batchIdOf_ascii, hb]
+
+theorem takeItems_enc (v : Nat) (items : List Kmip.Item) (h : items.all (okItem v) = true) :
+    takeItems (some v) items.length (items.map (encItem v)) = .ok (items.map (normItem v)) := by
+  induction items with
+  | nil => rfl
+  | cons it rest ih =>
+    simp only [List.all_cons, Bool.and_eq_true] at h
+    simp only [List.length_cons, List.map_cons]
+    rw [takeItems]
+    have ht : (tagOf (encItem v it) == T.batchItem) = true := rfl
+    simp only [ht, ↓reduceIte, batchItem_enc v it h.1, ih h.2]
+
+theorem kmipVersion_supported (v : Nat) (h : supportedVersion v = true) :
+    kmipVersion (Int.ofNat (v / 10), Int.ofNat (v % 10)) = some v := by
+  simp only [supportedVersion, Bool.or_eq_true, decide_eq_true_eq] at h
+  rcases h with ((((h | h) | h) | h) | h) | h <;> subst h <;> rfl
+
+@[rd_eval] theorem tagOf_encHeader (r : Request) : tagOf (encHeader r) = T.requestHeader := rfl
+
+theorem header_enc (r : Request) (hv : supportedVersion r.version = true)
+    (hb : okOpt E.batchErrorContinuationOption.contains r.batchOption = true) :
+    inStruct "RequestHeader" headerBody (encHeader r) =
+      .ok ⟨some r.version, r.maxResponseSize.map Int.ofNat, r.async, r.batchOption, r.timeStamp, Int.ofNat r.items.length⟩ := by
+  obtain ⟨v, ts, as, bo, mx, items⟩ := r
+  have hver := version_enc v
+  have hk := kmipVersion_supported v hv
+  cases ts <;> cases as <;> cases bo <;> cases mx <;> simp only [okOpt] at hb <;>
+    simp only [headerBody, encHeader, rd_eval, kmip_tags, Nat.reduceBEq, ↓reduceIte, hver, hk, hb]
+
 end Kmip.EncodeRequest
